@@ -79,7 +79,31 @@ def gen_op(rnd: random.Random, M, c, counter):
         return [rnd.choice(pool) for _ in range(k)] if pool else []
     bad = rnd.random() < 0.15
     kind = rnd.choice(['emplace', 'emplace', 'add_gate', 'add_inputs', 'remove', 'rename', 'mark', 'set_outputs', 'set_inputs', 'order_inputs', 'order_outputs',
-                       'replace_inputs', 'make_block', 'slice', 'delete_block', 'remove_block', 'connect', 'into_bench', 'replace_sub', 'copy'])
+                       'replace_inputs', 'make_block', 'slice', 'delete_block', 'remove_block', 'connect', 'into_bench', 'replace_sub', 'copy', 'bare'])
+    if kind == 'bare':
+        # a sequence argument spelled as one string that is itself a label of several characters (a string is a sequence of
+        # its characters: the call must treat it so, or refuse it)
+        long_ = [l for l in labels if isinstance(l, str) and len(l) > 1]
+        if not long_:
+            kind = 'mark'
+        else:
+            lab = rnd.choice(long_)
+            how = rnd.randrange(5)
+            if how == 0:
+                return 'set_outputs', (lab,), {}, f'set_outputs({lab!r})'
+            if how == 1:
+                new = fresh()
+                t = rnd.choice(['NOT', 'IFF', 'AND', 'OR'])
+                return 'emplace_gate', (new, M.types[t], lab), {}, f'emplace_gate({new!r}, {t}, {lab!r})'
+            if how == 2:
+                new = fresh()
+                return 'make_block', (new, lab, [lab]), {}, f'make_block({new!r}, {lab!r}, [{lab!r}])'
+            if how == 3 and inner:
+                new = fresh()
+                g_ = rnd.choice(inner)
+                return 'make_block', (new, [g_], [g_]), {'inputs': lab}, f'make_block({new!r}, [{g_!r}], [{g_!r}], inputs={lab!r})'
+            new = fresh()
+            return 'make_block_from_slice', (new, lab, some(1, inner) if inner else some(1)), {}, f'make_block_from_slice({new!r}, {lab!r}, ...)'
     if kind in ('emplace', 'add_gate'):
         t = rnd.choice(TYPES2 + TYPES1 + ['AND3', 'ALWAYS_TRUE', 'ALWAYS_FALSE'])
         ops = tuple(some(2)) if t in TYPES2 else tuple(some(1)) if t in TYPES1 else tuple(some(3)) if t == 'AND3' else tuple(some(rnd.choice((0, 1, 2))))   # constants may carry operands
@@ -161,6 +185,11 @@ def gen_op(rnd: random.Random, M, c, counter):
             tc = some(len(oc))
         if bad:
             tc = tc + some(1)
+        # sometimes the name of a block that is gone while gates it labelled are still there (a free block name does not
+        # make the labels under its prefix free)
+        ghosts = sorted({l.split('@')[0] for l in d['_gates'] if isinstance(l, str) and '@' in l} - set(blocks))
+        if ghosts and rnd.random() < 0.3:
+            k = rnd.choice(ghosts)
         name = '' if rnd.random() < 0.3 else k
         via = rnd.random()
         if via < 0.5:
@@ -305,7 +334,7 @@ def observe(M, c, rnd, which=OBSERVERS, lenient=False):
     if problems(c):
         # a state a *returning* public call left although it is not well formed (never on a tree where C02 holds): the
         # orderings are still observed when every operand names a gate -- that is how such a state shows to a user
-        if not lenient or any(o not in d['_gates'] for g in d['_gates'].values() for o in g.operands):
+        if not lenient or any(o not in d['_gates'] for g in d['_gates'].values() for o in g.operands) or cyclic(c):
             return {}
         which = [w for w in which if w == 'top_sort']
     ins = list(d['_inputs'])
@@ -321,7 +350,7 @@ def observe(M, c, rnd, which=OBSERVERS, lenient=False):
             out['get_truth_table'] = f'get_truth_table raises {err}'
         elif [list(r) for r in got] != want:
             out['get_truth_table'] = f'get_truth_table answers {[["01"[bool(v)] if isinstance(v, bool) else "?" for v in r] for r in got]}, the circuit computes {[["01"[v] for v in r] for r in want]}'
-    if legal and len(ins) <= 5 and (ins or d['_gates']):
+    if legal and len(ins) <= 5 and (ins or d['_gates']) and ('evaluate_full_circuit' in which or 'evaluate_circuit' in which):
         a = {i: rnd.random() < 0.5 for i in ins}
         ref = state_values(c, a)
         if 'evaluate_full_circuit' in which:
@@ -368,6 +397,9 @@ def scripted_histories(M):
     def G(l, t, ops):
         return ('emplace_gate', (l, T[t], tuple(ops)), {}, f'emplace_gate({l!r}, {t}, {tuple(ops)})')
     two = [('a', 'INPUT', ()), ('b', 'INPUT', ())]
+
+    def XB():
+        return M.build_circuit([('x', 'INPUT', ()), ('y', 'INPUT', ()), ('z', 'XOR', ('x', 'y')), ('w', 'NOT', ('z',))], ('w', 'z'))
     return [
         # a gate removed and rebuilt under its old label with another function (same labels, same order, same outputs)
         ((two + [('g', 'AND', ('a', 'b')), ('h', 'OR', ('g', 'a'))], ('g', 'h'), ()),
@@ -381,6 +413,17 @@ def scripted_histories(M):
         ((two + [('g', 'LT', ('b', 'a'))], ('g',), ()),
          [('into_bench', (), {}, 'into_bench()'), ('remove_gate', ('g',), {}, "remove_gate('g')"), G('g', 'LT', ('a', 'b')), ('mark_as_output', ('g',), {}, "mark_as_output('g')"),
           ('into_bench', (), {}, 'into_bench()'), ('order_inputs', (['b', 'a'],), {}, "order_inputs(['b', 'a'])"), ('replace_inputs', (['b'], []), {}, "replace_inputs(['b'], [])")]),
+        # a second connection under the name of a block that was deleted while its gates stayed (all inputs of the attached
+        # circuit connected: nothing but the per-gate checks can notice the clash)
+        ((two + [('g', 'AND', ('a', 'b')), ('h', 'OR', ('g', 'a'))], ('g', 'h'), ()),
+         [('connect_left', (XB(), ['g', 'h']), {'name': 'H'}, "connect_left(<XOR-like block>, ['g', 'h'], name='H')"), ('delete_block', ('H',), {}, "delete_block('H')"),
+          ('connect_left', (XB(), ['H@w', 'g']), {'name': 'H'}, "connect_left(<XOR-like block>, ['H@w', 'g'], name='H')")]),
+        ((two + [('g', 'AND', ('a', 'b')), ('h', 'OR', ('g', 'a'))], ('g', 'h'), ()),
+         [('rename_gate', ('h', 'H@z'), {}, "rename_gate('h', 'H@z')"), ('extend_circuit', (XB(),), {'name': 'H'}, "extend_circuit(<XOR-like block>, name='H')")]),
+        # sequence arguments spelled as one string that is itself a label
+        (([('x1', 'INPUT', ()), ('x2', 'INPUT', ()), ('sum', 'XOR', ('x1', 'x2')), ('m', 'OR', ('x1', 'sum'))], ('sum', 'm'), ()),
+         [('set_outputs', ('sum',), {}, "set_outputs('sum')"), ('emplace_gate', ('n', T['NOT'], 'sum'), {}, "emplace_gate('n', NOT, 'sum')"),
+          ('make_block', ('B', 'sum', ['sum']), {}, "make_block('B', 'sum', ['sum'])"), ('make_block', ('D', ['sum'], ['sum']), {'inputs': 'x1'}, "make_block('D', ['sum'], ['sum'], inputs='x1')")]),
         # inputs re-ordered and fixed, an input renamed
         ((two + [('c', 'INPUT', ()), ('g', 'GT', ('a', 'b')), ('h', 'XOR', ('g', 'c'))], ('h', 'a'), ()),
          [('order_inputs', (['c', 'a'],), {}, "order_inputs(['c', 'a'])"), ('rename_gate', ('a', 'z'), {}, "rename_gate('a', 'z')"), ('replace_inputs', (['c'], []), {}, "replace_inputs(['c'], [])"),
